@@ -89,11 +89,11 @@ _SIMSTAT = re.compile(r"The number of states generated: (\d+)")
 
 
 def run(module: str, cfg_text: str, *, workers=16, simulate: str | None = None, timeout=3600,
-        coverage=False, use_cache=True, tag="", env_extra=None, depth=None, jvm_opts=(), dfs=False) -> TLCResult:
+        coverage=False, use_cache=True, tag="", env_extra=None, depth=None, jvm_opts=(), dfs=False, rseed=None) -> TLCResult:
     """module: file name in spec/ without .tla.  Returns a TLCResult; raises Machinery when TLC itself
     breaks (parse error, overflow, timeout).  An invariant/property violation is *not* an exception:
     result.ok is False and result.error names it (used by self-tests and trace validation)."""
-    key = sha(spec_hash(), module, cfg_text, simulate or "", str(depth), json.dumps(env_extra or {}, sort_keys=True), tag)
+    key = sha(spec_hash(), module, cfg_text, simulate or "", str(depth), str(rseed), json.dumps(env_extra or {}, sort_keys=True), tag)
     cdir = WORK / "cache" / key
     meta = cdir / "meta.json"
     if use_cache and meta.exists():
@@ -119,6 +119,8 @@ def run(module: str, cfg_text: str, *, workers=16, simulate: str | None = None, 
         cmd += ["-simulate", simulate]
     if depth:
         cmd += ["-depth", str(depth)]
+    if rseed is not None:          # reproducible random walks: derived from VERIF_SEED by the caller
+        cmd += ["-seed", str(int(rseed))]
     cmd.append(module + ".tla")
     out_path = run_dir / "stdout.txt"
     t0 = time.time()
